@@ -60,6 +60,10 @@ def _get_composite_state_recur(
                 process_state = node.initial_state(config.get(node.name))
             elif state_type == 'default':
                 process_state = node.default_state()
+            # The process may hand out an object it keeps (one of its
+            # parameters, say): what is merged into the composite's state
+            # later on must not reach it.
+            process_state = copy.deepcopy(process_state)
             # Prevent multiupdates from forming when a single process has
             # multiple ports to the same stores holding a dictionary
             sub_state = inverse_topology(
